@@ -237,52 +237,91 @@ def scn_constants(scn):
 
 # ---------------------------------------------------------------------------
 # seeded random histories (beyond the model-checked constants)
-def gen_random(scn, rng, depth):
+DEFAULT_W = dict(Cycle=30, Submit=20, RemoveApp=6, SetPrio=6, Move=4, State=8, MarkUnschedule=3,
+                 RemoveServer=4, AddServer=4, Blacklist=4, Group=5, Tick=6, Renew=0)
+WEIGHTS = {
+    # capacity pressure: arrivals, priority changes, few departures
+    'pressure': dict(DEFAULT_W, Submit=30, SetPrio=14, RemoveApp=2, Move=2, Tick=8, Renew=4, Group=1,
+                     Blacklist=1, MarkUnschedule=1),
+    # leases against the clock
+    'lease': dict(DEFAULT_W, Submit=26, Tick=16, SetPrio=12, Renew=10, RemoveApp=2, Move=6, Group=1,
+                  Blacklist=1, RemoveServer=2, AddServer=3),
+    # server failure handling
+    'failure': dict(DEFAULT_W, State=26, Tick=16, MarkUnschedule=8, Blacklist=8, Submit=18, RemoveApp=2,
+                    Move=1, Group=1, RemoveServer=2, AddServer=2),
+    # identities
+    'identity': dict(DEFAULT_W, Group=20, Submit=22, RemoveApp=8, Blacklist=8, RemoveServer=6,
+                     AddServer=5, State=6, Tick=3),
+}
+
+
+def gen_random(scn, rng, depth, weights=None):
     """A random event history that respects the events' guards by tracking a
-    light shadow (which apps/servers exist).  Ends with a Cycle."""
+    light shadow (which apps/servers exist).  Ends with a Cycle.  `weights`
+    biases the event mix (see WEIGHTS)."""
+    w = weights or DEFAULT_W
+    names = sorted(w)
+    cum = []
+    tot = 0
+    for n in names:
+        tot += w[n]
+        cum.append(tot)
     apps = set()
     servers = {s for s, i in scn['server_init'].items() if i}
     allsrv = list(scn['server_init'])
     hist = []
     allocs = list(scn['allocs'])
     groups = list(scn.get('groups') or {})
+    last_state = {}
     for _ in range(depth):
-        r = rng.random()
+        r = rng.random() * tot
+        kind = names[next(i for i, c in enumerate(cum) if r < c)]
         free_names = [a for a in scn['apps'] if a not in apps]
-        if r < 0.30:
+        if kind == 'Cycle':
             hist.append(('Cycle', []))
-        elif r < 0.50 and free_names:
+        elif kind == 'Submit' and free_names:
             a = rng.choice(free_names)
             apps.add(a)
             hist.append(('Submit', [a, rng.randrange(len(scn['aprofiles'])) + 1]))
-        elif r < 0.56 and apps:
+        elif kind == 'RemoveApp' and apps:
             a = rng.choice(sorted(apps))
             apps.discard(a)
             hist.append(('RemoveApp', [a]))
-        elif r < 0.62 and apps:
-            hist.append(('SetPrio', [rng.choice(sorted(apps)), rng.choice([0, 1, 5, 9])]))
-        elif r < 0.66 and apps:
+        elif kind == 'SetPrio' and apps:
+            hist.append(('SetPrio', [rng.choice(sorted(apps)), rng.choice([0, 1, 5, 9, 50])]))
+        elif kind == 'Move' and apps:
             hist.append(('Move', [rng.choice(sorted(apps)), rng.choice(allocs)]))
-        elif r < 0.74 and servers:
-            hist.append((rng.choice(['Down', 'Up', 'Freeze']), [rng.choice(sorted(servers))]))
-        elif r < 0.77 and apps:
+        elif kind == 'State' and servers:
+            s = rng.choice(sorted(servers))
+            # freeze-then-down and down-then-up chains are the interesting ones
+            nxt = {'Freeze': ['Down', 'Down', 'Up'], 'Down': ['Up', 'Freeze', 'Up'],
+                   'Up': ['Down', 'Freeze', 'Down']}.get(last_state.get(s), ['Down', 'Up', 'Freeze'])
+            ev = rng.choice(nxt)
+            last_state[s] = ev
+            hist.append((ev, [s]))
+        elif kind == 'MarkUnschedule' and apps:
             hist.append(('MarkUnschedule', [rng.choice(sorted(apps))]))
-        elif r < 0.81 and servers:
+        elif kind == 'RemoveServer' and servers:
             s = rng.choice(sorted(servers))
             servers.discard(s)
+            last_state.pop(s, None)
             hist.append(('RemoveServer', [s]))
-        elif r < 0.85 and len(servers) < len(allsrv):
+        elif kind == 'AddServer' and len(servers) < len(allsrv):
             s = rng.choice([x for x in allsrv if x not in servers])
             servers.add(s)
             hist.append(('AddServer', [s, rng.randrange(len(scn['sprofiles'])) + 1]))
-        elif r < 0.89 and apps:
+        elif kind == 'Blacklist' and apps:
             hist.append((rng.choice(['Blacklist', 'Unblacklist']), [rng.choice(sorted(apps))]))
-        elif r < 0.94 and groups:
+        elif kind == 'Group' and groups:
             if rng.random() < 0.25:
                 hist.append(('DelGroup', [rng.choice(groups)]))
             else:
                 hist.append(('SetCount', [rng.choice(groups), rng.randrange(0, 4)]))
-        else:
+        elif kind == 'Renew' and apps:
+            # a renewal request is served by the very next cycle (see Sched.tla Renew)
+            hist.append(('Renew', [rng.choice(sorted(apps))]))
+            hist.append(('Cycle', []))
+        elif kind == 'Tick':
             hist.append(('Tick', [rng.choice([1, 1, 2, 3])]))
     hist.append(('Cycle', []))
     return hist
